@@ -87,9 +87,13 @@ fn main() {
         if o.noop {
             noops += 1;
         }
+        // (the smallest node cache evicts: more fetches than the machine's cache)
+        let dev_scn = dev_scn || input["cfg"] == "tiny";
         if let (Some(t), false) = (trace.as_mut(), dev_scn || o.noop || input["runs"].as_array().map(|r| r.len() > 1).unwrap_or(false)) {
             t.event(json!({"ev": "start", "shape": input["shape"], "denial": input["denial"],
-                           "qk": input["qk"], "adv": input["adv"]}));
+                           "qk": input["qk"], "adv": input["adv"],
+                           "anc": input["anc"].as_str().unwrap_or("dnskey"),
+                           "cfg": input["cfg"].as_str().unwrap_or("default")}));
             for (qt, z) in &o.fetches {
                 t.event(json!({"ev": "fetch", "t": qt, "z": z}));
             }
@@ -132,7 +136,8 @@ fn main() {
                 let pair = worlds.pair(shape, denial);
                 let plan = parse_adv(&input["adv"]);
                 let (qn, qt) = question(&pair.0, input["qk"].as_str().unwrap_or(""), &plan);
-                for (cd, ad, d, seen) in conn_matrix(&pair, &plan, &qn, qt) {
+                for (cd, ad, d, seen) in conn_matrix(&pair, &plan, &qn, qt,
+                        input["anc"].as_str().unwrap_or(""), input["cfg"].as_str().unwrap_or("")) {
                     conn_n += 1;
                     if !conn_ok(st, cd, ad, d, &seen) {
                         conn_bad += 1;
